@@ -121,11 +121,68 @@ theorem suffix_head (s : Suffix) (Z : List TokenKind) :
 theorem suffix_pos (s : Suffix) : 1 ≤ s.render.length := by
   cases s <;> simp [Suffix.render]
 
+/-! ### node kinds -/
+
+def Frag.OLit.nk : OLit → SyntaxKind
+  | .id => .Identifier
+  | .uninit => .Uninitialized
+  | .classVal _ => .ClassValue
+  | .castop _ _ _ _ => .BangOperator
+
+def Frag.HLit.nk : HLit → SyntaxKind
+  | .op o => o.nk
+  | .int _ => .Integer
+  | .code => .Code
+  | .tru => .Boolean
+  | .fls => .Boolean
+  | .bang _ _ _ _ => .BangOperator
+  | .cond _ => .CondOperator
+  | .dag _ _ _ _ => .Dag
+
+def Frag.Lit.nk : Lit → SyntaxKind
+  | .safe h => h.nk
+  | .str => .String
+  | .bits _ _ => .Bits
+  | .list _ _ => .List
+
+def Frag.Suffix.nk : Suffix → SyntaxKind
+  | .field => .FieldSuffix
+  | .range _ => .RangeSuffix
+  | .slice _ _ => .SliceSuffix
+
+def Frag.Suffixes.nks : Suffixes → List SyntaxKind
+  | .nil => []
+  | .cons s ss => s.nk :: ss.nks
+
+def Frag.SVals.count : SVals → Nat
+  | .nil => 0
+  | .cons _ _ rest => rest.count + 1
+
+def Frag.SliceElems.count : SliceElems → Nat
+  | .one _ => 1
+  | .cons _ es => es.count + 1
+
+theorem olit_nk_simple (o : OLit) : simpleKinds.contains o.nk = true := by cases o <;> rfl
+theorem hlit_nk_simple (h : HLit) : simpleKinds.contains h.nk = true := by
+  cases h with
+  | op o => exact olit_nk_simple o
+  | _ => rfl
+theorem lit_nk_simple (l : Lit) : simpleKinds.contains l.nk = true := by
+  cases l with
+  | safe h => exact hlit_nk_simple h
+  | _ => rfl
+theorem sufs_nk : (ss : Suffixes) → ∀ x ∈ ss.nks, sufKinds.contains x = true
+  | .nil => fun x hx => by simp [Suffixes.nks] at hx
+  | .cons s ss => fun x hx => by
+    rcases List.mem_cons.mp hx with rfl | hx
+    · cases s <;> rfl
+    · exact sufs_nk ss x hx
+
 /-! ### the walk -/
 
 mutual
 
-theorem c_olit : (o : OLit) → LitOk o.render
+theorem c_olit : (o : OLit) → LitOk o.nk o.render
   | .id => lit_id
   | .uninit => lit_uninit
   | .classVal .nil => lit_classVal_nil
@@ -135,7 +192,7 @@ theorem c_olit : (o : OLit) → LitOk o.render
       · exact ⟨c_val v, val_starts v⟩
       · exact c_vlist vs R' hR')
     rw [← vlist_join] at h
-    simpa only [OLit.render] using h
+    simpa only [OLit.nk, OLit.render] using h
   | .castop g ty hd tl => by
     have h := lit_bang (if g then TokenKind.XGetDagOp else TokenKind.XCast) (by cases g <;> rfl) ty
       hd.render tl.renders (fun R' hR' => by
@@ -143,9 +200,9 @@ theorem c_olit : (o : OLit) → LitOk o.render
         · exact ⟨c_val hd, val_starts hd⟩
         · exact c_vlist tl R' hR')
     rw [← vlist_join] at h
-    simpa only [OLit.render] using h
+    simpa only [OLit.nk, OLit.render] using h
 
-theorem c_hlit : (h : HLit) → LitOk h.render
+theorem c_hlit : (h : HLit) → LitOk h.nk h.render
   | .op o => c_olit o
   | .int b => lit_int b
   | .code => lit_code
@@ -157,49 +214,49 @@ theorem c_hlit : (h : HLit) → LitOk h.render
       · exact ⟨c_val hd, val_starts hd⟩
       · exact c_vlist tl R' hR')
     rw [← vlist_join] at h
-    simpa only [HLit.render] using h
+    simpa only [HLit.nk, HLit.render] using h
   | .cond cs => by
     have h := lit_cond cs.hdR cs.tlR (c_clauses cs)
     rw [← clauses_join] at h
-    simpa only [HLit.render] using h
+    simpa only [HLit.nk, HLit.render] using h
   | .dag o sufs tl .none => by
-    have hO := val_of_parts (c_olit o) (c_suffixes sufs) (c_svals tl)
+    have hO := val_of_parts (c_olit o) (c_suffixes sufs) (c_svals tl) (olit_nk_simple o) (sufs_nk sufs)
     have h := lit_dag_plain hO (olit_opstart o _) false
-    simpa only [HLit.render, DagRest.render, nameR_false, List.nil_append, List.append_assoc] using h
+    simpa only [HLit.nk, HLit.render, DagRest.render, nameR_false, List.nil_append, List.append_assoc] using h
   | .dag o sufs tl (.named .nil) => by
-    have hO := val_of_parts (c_olit o) (c_suffixes sufs) (c_svals tl)
+    have hO := val_of_parts (c_olit o) (c_suffixes sufs) (c_svals tl) (olit_nk_simple o) (sufs_nk sufs)
     have h := lit_dag_plain hO (olit_opstart o _) true
-    simpa only [HLit.render, DagRest.render, nameR_true, List.cons_append, List.nil_append, List.append_assoc] using h
+    simpa only [HLit.nk, HLit.render, DagRest.render, nameR_true, List.cons_append, List.nil_append, List.append_assoc] using h
   | .dag o sufs tl (.named (.var rest)) => by
-    have hO := val_of_parts (c_olit o) (c_suffixes sufs) (c_svals tl)
+    have hO := val_of_parts (c_olit o) (c_suffixes sufs) (c_svals tl) (olit_nk_simple o) (sufs_nk sufs)
     have h := lit_dag_args hO (olit_opstart o _) true [TokenKind.VarName] rest.renders (fun R' hR' => by
         rcases List.mem_cons.mp hR' with rfl | hR'
         · exact ditem_var
         · exact c_dagargs rest R' hR')
       (fun _ => rfl) (Or.inl rfl)
     rw [← dagargs_join] at h
-    simpa only [HLit.render, DagRest.render, nameR_true, List.cons_append, List.nil_append, List.append_assoc] using h
+    simpa only [HLit.nk, HLit.render, DagRest.render, nameR_true, List.cons_append, List.nil_append, List.append_assoc] using h
   | .dag o sufs tl (.named (.val v nm rest)) => by
-    have hO := val_of_parts (c_olit o) (c_suffixes sufs) (c_svals tl)
+    have hO := val_of_parts (c_olit o) (c_suffixes sufs) (c_svals tl) (olit_nk_simple o) (sufs_nk sufs)
     have h := lit_dag_args hO (olit_opstart o _) true (v.render ++ nameR nm) rest.renders (fun R' hR' => by
         rcases List.mem_cons.mp hR' with rfl | hR'
         · exact ditem_val (c_val v) (val_starts v) nm
         · exact c_dagargs rest R' hR')
       (fun Z => by rw [List.append_assoc]; exact notin_of_mem (val_starts v _) (by decide)) (Or.inl rfl)
     rw [← dagargs_join] at h
-    simpa only [HLit.render, DagRest.render, nameR_true, List.cons_append, List.nil_append, List.append_assoc] using h
+    simpa only [HLit.nk, HLit.render, DagRest.render, nameR_true, List.cons_append, List.nil_append, List.append_assoc] using h
   | .dag o sufs tl (.bareVar more) => by
-    have hO := val_of_parts (c_olit o) (c_suffixes sufs) (c_svals tl)
+    have hO := val_of_parts (c_olit o) (c_suffixes sufs) (c_svals tl) (olit_nk_simple o) (sufs_nk sufs)
     have h := lit_dag_args hO (olit_opstart o _) false [TokenKind.VarName] more.renders (fun R' hR' => by
         rcases List.mem_cons.mp hR' with rfl | hR'
         · exact ditem_var
         · exact c_dagargs more R' hR')
       (fun _ => rfl) (Or.inr (fun _ => rfl))
     rw [← dagargs_join] at h
-    simpa only [HLit.render, DagRest.render, nameR_false, List.cons_append, List.nil_append, List.append_assoc] using h
+    simpa only [HLit.nk, HLit.render, DagRest.render, nameR_false, List.cons_append, List.nil_append, List.append_assoc] using h
   | .dag o sufs tl (.bareVal h' sufs' tl' nm more) => by
-    have hO := val_of_parts (c_olit o) (c_suffixes sufs) (c_svals tl)
-    have hV := val_of_parts (c_hlit h') (c_suffixes sufs') (c_svals tl')
+    have hO := val_of_parts (c_olit o) (c_suffixes sufs) (c_svals tl) (olit_nk_simple o) (sufs_nk sufs)
+    have hV := val_of_parts (c_hlit h') (c_suffixes sufs') (c_svals tl') (hlit_nk_simple h') (sufs_nk sufs')
     have hs : Starts (h'.render ++ (sufs'.render ++ tl'.render)) := hlit_starts h' _
     have h := lit_dag_args hO (olit_opstart o _) false ((h'.render ++ (sufs'.render ++ tl'.render)) ++ nameR nm)
       more.renders (fun R' hR' => by
@@ -210,9 +267,9 @@ theorem c_hlit : (h : HLit) → LitOk h.render
       (Or.inr (fun Z => by
         rw [List.append_assoc, List.append_assoc, hlit_head]; exact (hlit_first h').2))
     rw [← dagargs_join] at h
-    simpa only [HLit.render, DagRest.render, nameR_false, List.cons_append, List.nil_append, List.append_assoc] using h
+    simpa only [HLit.nk, HLit.render, DagRest.render, nameR_false, List.cons_append, List.nil_append, List.append_assoc] using h
 
-theorem c_lit : (l : Lit) → LitOk l.render
+theorem c_lit : (l : Lit) → LitOk l.nk l.render
   | .safe h => c_hlit h
   | .str => lit_str
   | .bits hd tl => by
@@ -221,30 +278,30 @@ theorem c_lit : (l : Lit) → LitOk l.render
       · exact ⟨c_val hd, val_starts hd⟩
       · exact c_vlist tl R' hR')
     rw [← vlist_join] at h
-    simpa only [Lit.render] using h
+    simpa only [Lit.nk, Lit.render] using h
   | .list hd tl => by
     have h := lit_list hd.render tl.renders (fun R' hR' => by
       rcases List.mem_cons.mp hR' with rfl | hR'
       · exact ⟨c_val hd, val_starts hd⟩
       · exact c_vlist tl R' hR')
     rw [← vlist_join] at h
-    simpa only [Lit.render] using h
+    simpa only [Lit.nk, Lit.render] using h
 
-theorem c_suffix : (s : Suffix) → SufOk s.render
+theorem c_suffix : (s : Suffix) → SufOk s.nk s.render
   | .field => suf_field
   | .range r => suf_range r
   | .slice es t => suf_slice (c_selems es t).1
 
-theorem c_suffixes : (ss : Suffixes) → SufsOk ss.render
+theorem c_suffixes : (ss : Suffixes) → SufsOk ss.nks ss.render
   | .nil => sufs_nil
   | .cons s ss => sufs_cons (c_suffix s) (suffix_head s) (suffix_pos s) (c_suffixes ss)
 
-theorem c_svals : (tl : SVals) → PasteOk tl.render
+theorem c_svals : (tl : SVals) → PasteOk tl.count tl.render
   | .nil => paste_nil
-  | .cons l sufs rest => paste_cons_parts (c_lit l) (c_suffixes sufs) (c_svals rest)
+  | .cons l sufs rest => paste_cons_parts (c_lit l) (c_suffixes sufs) (c_svals rest) (lit_nk_simple l) (sufs_nk sufs)
 
 theorem c_val : (v : Val) → ValOk v.render
-  | .mk l sufs tl => val_of_parts (c_lit l) (c_suffixes sufs) (c_svals tl)
+  | .mk l sufs tl => val_of_parts (c_lit l) (c_suffixes sufs) (c_svals tl) (lit_nk_simple l) (sufs_nk sufs)
 
 theorem c_vlist : (tl : VList) → ∀ R ∈ tl.renders, ValOk R ∧ Starts R
   | .nil => fun R hR => by simp [VList.renders] at hR
@@ -259,7 +316,7 @@ theorem c_selem : (e : SliceElem) → ElemOk e.render ∧ Starts e.render
   | .minus a b => ⟨elem_minus (c_val a) (c_val b), (val_starts a).append _⟩
   | .juxt a => ⟨elem_juxt (c_val a), (val_starts a).append _⟩
 
-theorem c_selems : (es : SliceElems) → (t : Bool) → SliceOk (es.renderT t) ∧ Starts (es.renderT t)
+theorem c_selems : (es : SliceElems) → (t : Bool) → SliceOk es.count (es.renderT t) ∧ Starts (es.renderT t)
   | .one e, t => ⟨slice_one (c_selem e).1 (c_selem e).2 t, (c_selem e).2.append _⟩
   | .cons e es, t =>
     ⟨slice_cons (c_selem e).1 (c_selem e).2 (c_selems es t).1 (c_selems es t).2, (c_selem e).2.append _⟩
